@@ -32,7 +32,9 @@ def check(ctx):
     logs = uniq_events(it, {'transcendental'}, under(GFE))
     logs = [e for e in logs if e['fn'] == 'log']
     if not logs:
-        ctx.ob('R1', fi, 'logarithm', False, 'no logarithm is taken: the result is not -kT ln p')
+        unresolved = any(n_[0].startswith(('call of unknown callee', 'unmodelled')) for n_ in it.notes)
+        ctx.ob('R1', fi, 'logarithm', None if unresolved else False, 'no logarithm is taken: the result is not -kT ln p' if not unresolved else
+               'the computation of the free energy goes through calls that were not resolved')
     for e in uniq_events(it, {'masked_ufunc'}, under(GFE, f'{VOL}.probability')):
         if e['fn'] == 'log':
             fill = e['fill']
